@@ -4,8 +4,11 @@ import json, glob, os, subprocess
 base = os.path.join(os.path.dirname(os.path.abspath(__file__)), "..")
 props = [json.loads(l)["id"] for l in open(os.path.join(base, "properties.jsonl"))]
 checks = []
+ready = open(os.path.join(base, "harness", "manifest", "READY")).read().split()      # slices whose checks are integrated and green
 for p in sorted(glob.glob(os.path.join(base, "harness", "manifest", "C*.json"))):
-    checks.append(json.load(open(p)))
+    c = json.load(open(p))
+    if c["property_id"] in ready:
+        checks.append(c)
 claimed = {c["property_id"] for c in checks}
 na_file = os.path.join(base, "harness", "manifest", "not_applicable.json")
 na = json.load(open(na_file)) if os.path.exists(na_file) else {}
